@@ -46,6 +46,12 @@ func ParseLocalSource(given string) (LocalSource, error) {
 		return LocalSource{}, fmt.Errorf("must be a relative path using forward-slash separators between segments, like in a relative URL")
 	}
 
+	// The generic source parsers refuse surrounding spaces for every kind of
+	// address; a local address accepted here must be acceptable there too.
+	if strings.TrimSpace(given) != given {
+		return LocalSource{}, fmt.Errorf("source address must not have leading or trailing spaces")
+	}
+
 	// We distinguish local source addresses from other address types by them
 	// starting with some kind of relative path prefix.
 	if !looksLikeLocalSource(given) && given != "." && given != ".." {
